@@ -242,16 +242,16 @@ def iteritems6(x):
 
 class RBQLRecord:
     def __init__(self):
-        self.storage = dict()
+        self.__storage = dict() # Name-mangled: attribute variables (a.name) are set on this object too, so a column may be called "storage"
 
     def __getitem__(self, key):
         try:
-            return self.storage[key]
+            return self.__storage[key]
         except KeyError:
             raise InternalBadKeyError(key)
 
     def __setitem__(self, key, value):
-        self.storage[key] = value
+        self.__storage[key] = value
 
 
 def safe_get(record, idx):
